@@ -134,6 +134,18 @@ Theorem c17_no_collision_owns_all_points : forall hash ops,
 Proof. intros hash ops H. split; [apply owns_all_points, H | apply members_have_points, H]. Qed.
 Print Assumptions c17_no_collision_owns_all_points.
 
+(* ... so that, without collisions, "non-empty ring" can be read as "at least one member":
+   a lookup then returns a current member *)
+Theorem c17_member_no_collision : forall hash ops key,
+  (forall a b, In (Add a) ops -> In (Add b) ops -> a <> b ->
+     forall p, In p (points hash a) -> ~ In p (points hash b)) ->
+  nodes (run hash ops) <> [] ->
+  exists n, get_node_by hash key (run hash ops) = Some n /\ In n (nodes (run hash ops)).
+Proof.
+  intros hash ops key Hd Hn. apply c17_member. apply members_have_points; assumption.
+Qed.
+Print Assumptions c17_member_no_collision.
+
 (* Non-vacuity.  With the code's own FNV-1a: the replica strings "n151-18" and "n2186-10"
    collide, so the rings below contain a point claimed by two members — the theorems above
    cover them; the ring is not empty, and a concrete lookup computes. *)
@@ -155,6 +167,21 @@ Example c17_example_ring :
   get_node_by fnv1a [107; 101; 121; 49] s = Some n2186 /\
   get_node_by fnv1a [107; 101; 121; 49] (step fnv1a s (Remove n151)) = Some n2186.
 Proof. vm_compute. repeat split; try reflexivity. discriminate. Qed.
+
+(* c17_composite_moves and c17_member_no_collision are not vacuous: two members whose points
+   do not collide (checked by computation), a run of three calls between two lookups *)
+Example c17_example_composite :
+  let a := [97] in let b := [98] in let c := [99] in
+  (forall p, In p (points fnv1a a) -> ~ In p (points fnv1a b)) /\
+  get_node_by fnv1a [107] (run fnv1a [Add a; Add b]) = Some b /\
+  get_node_by fnv1a [107] (run fnv1a ([Add a; Add b] ++ [Add c; Remove a; Add a])) = Some c /\
+  nodes (run fnv1a [Add a; Add b; Remove a]) <> [].
+Proof.
+  cbv zeta. split.
+  - intros p H1 H2. vm_compute in H1, H2.
+    repeat (destruct H1 as [H1|H1]; [subst p; repeat (destruct H2 as [H2|H2]; [discriminate|]); exact H2|]). exact H1.
+  - vm_compute. repeat split; try reflexivity. discriminate.
+Qed.
 
 (* The tie to the source text.  tools/gofunc regenerates Generated/Consistent.v from
    consistent.go on every run (Go loops as fuelled iteration, slice reads with bounds checks,
